@@ -115,13 +115,44 @@ theorem mapVals_litsOk (h : Str → J → J) (hh : ∀ k v, J.litsOk P v = true 
     simp only [mapVals, List.map_cons, litsOkKVs, Bool.and_eq_true] at ih ⊢
     exact ⟨hh k v hl.1, ih⟩
 
+
+theorem nsFieldVal_litsOk (c : Ctx) (k : Str) (v : J) (hv : J.litsOk P v = true) : J.litsOk P (c.nsFieldVal k v) = true := by
+  cases v <;> simp only [Ctx.nsFieldVal] <;> (try split) <;> simp_all [J.litsOk]
+
+theorem nsDocOf_litsOk (c : Ctx) (v : J) (hv : J.litsOk P v = true) : J.litsOk P (c.nsDocOf v) = true := by
+  cases v with
+  | obj m =>
+    simp only [Ctx.nsDocOf, J.litsOk] at hv ⊢
+    exact mapVals_litsOk _ (fun k v hv => nsFieldVal_litsOk c k v hv) m hv
+  | _ => exact hv
+
+theorem mapList_litsOk (f : J → J) (hf : ∀ x, J.litsOk P x = true → J.litsOk P (f x) = true) :
+    ∀ xs : List J, litsOkList P xs = true → litsOkList P (xs.map f) = true
+  | [], _ => rfl
+  | x :: xs, h => by
+    simp only [litsOkList, Bool.and_eq_true] at h
+    simp only [List.map_cons, litsOkList, Bool.and_eq_true]
+    exact ⟨hf x h.1, mapList_litsOk f hf xs h.2⟩
+
+theorem nsVal_litsOk (c : Ctx) (k : Str) (v : J) (hv : J.litsOk P v = true) : J.litsOk P (c.nsVal k v) = true := by
+  unfold Ctx.nsVal
+  split
+  · exact nsDocOf_litsOk c v hv
+  · split
+    · cases v with
+      | arr xs =>
+        simp only [J.litsOk] at hv ⊢
+        exact mapList_litsOk _ (fun x hx => nsDocOf_litsOk c x hx) xs hv
+      | _ => exact hv
+    · exact nsFieldVal_litsOk c k v hv
+
 theorem cmdDoc_litsOk (c : Ctx) (hT : P c.T.number = true) (v : J) (h : J.litsOk P v = true) :
     J.litsOk P (c.cmdDoc v) = true := by
   rw [← Ctx.cmdDoc_refine]
   cases v with
   | obj cmd =>
     simp only [J.litsOk] at h
-    have e1 : c.redactCommandA cmd = mapVals (fun k v => c.run (Ctx.zoneState (lookup sInsert cmd).isSome k) v) cmd := rfl
+    have e1 : c.redactCommandA cmd = mapVals (fun k v => c.run (Ctx.zoneState (lookup sInsert cmd).isSome (lookup sBulkWrite cmd).isSome k) v) cmd := rfl
     have e2 : ∀ l, c.redactNamespace l = mapVals c.nsVal l := fun _ => rfl
     have h1 : litsOkKVs P (c.redactCommandA cmd) = true := by
       rw [e1]; exact mapVals_litsOk _ (fun k v hv => Ctx.run_litsOk c hT _ v hv) cmd h
@@ -130,7 +161,7 @@ theorem cmdDoc_litsOk (c : Ctx) (hT : P c.T.number = true) (v : J) (h : J.litsOk
     · simp only [J.litsOk]; rw [e2]
       apply mapVals_litsOk _ _ _ h1
       intro k v hv
-      cases v <;> simp only [Ctx.nsVal] <;> (try split) <;> simp_all [J.litsOk]
+      exact nsVal_litsOk c k v hv
     · simpa [J.litsOk] using h1
   | _ => exact h
 
